@@ -236,7 +236,7 @@ mutual
       (renderCodeLines st content [] [] false '`' 3,
        { st with skipBlank := false, pfx := st.snd, suppress := false })
     | .hr => (st.pfx ++ "* * *\n".toList, { st with pfx := st.snd })
-    | .heading level cs =>
+    | .heading level cs _ =>
       let r := renderInlines cfg true [] cs
       let head := st.pfx ++ List.replicate level '#' ++ ' ' :: r.1
       if r.1.getLast? == some '\\' then
